@@ -26,7 +26,7 @@ XT_CODE = {'byte': 1, 'char': 2, 'short': 3, 'int': 4, 'float': 5, 'double': 6, 
 XT_NAME = {v: k for k, v in XT_CODE.items()}
 XT_SIZE = {1: 1, 2: 1, 3: 2, 4: 4, 5: 4, 6: 8, 7: 1, 8: 2, 9: 4, 10: 8, 11: 8}
 XT_PACK = {1: 'b', 2: 'B', 3: 'h', 4: 'i', 5: 'f', 6: 'd', 7: 'B', 8: 'H', 9: 'I', 10: 'q', 11: 'Q'}
-LEAN_FILES = ['PnVerif/Model/Tools.lean', 'PnVerif/Lemmas/ToolsValidate.lean', 'PnVerif/Lemmas/ToolsDiff.lean',
+LEAN_FILES = ['PnVerif/Model/Tools.lean', 'PnVerif/Lemmas/ToolsValidate.lean', 'PnVerif/Lemmas/ToolsSound.lean', 'PnVerif/Lemmas/ToolsDiff.lean',
               'PnVerif/Props/C20.lean', 'Driver/C20.lean']
 
 
@@ -1436,7 +1436,8 @@ def _run(V, rng, tier, seed, tree, wd):
             elif not tool_ok and classes and model != classes[-1]:
                 ties.append(('validate-class', 'variant %s: model %s, tool message class %s' % (cls, model, classes), replay))
     samples = [prog.lines[0], prog.lines[min(12, len(prog.lines) - 1)], 'variant %s %s' % (variants[5][1], variants[5][3][:40].hex()),
-               'theorem validate_accepts_encoded (h : Hdr) (data : Bytes) (he : Encodable h) (hu : OneUnlim h.dims) (hv : h.LayoutValid (Hdr.len h)) : validate (encodeRaw h ++ data) = true']
+               'theorem validate_accepts_layoutValid (d : Schema) (data : Bytes) (he : Encodable d) (hl : VLimits d) (hv : d.LayoutValid (Hdr.len d)) : validate (encodeRaw d ++ data) = true',
+               'theorem diff_iff_logical_eq_partial (cfg : DiffCfg) (a b : LFile) (wa : LWF a) (wb : LWF b) (nb : NoByte cfg a) (ag : LenAgree cfg a b) (hn : a.numrecs = b.numrecs) : (toolDiff cfg a b).same = true ↔ LogicalEq a b']
     V.cov['evaluations'] = evals[0]
     V.cov['distinct_nontrivial'] = len(distinct)
     V.cov['traces_validated_against_impl'] = evals[0] - len(ties)
